@@ -202,3 +202,17 @@ prop(
     modelled="as C02 plus compress_block down to the entropy coders (literal gathering, u32 casts, offset + 3, literals threshold, raw_literals, sequence count, code mapping); FSE / Huffman coders are parameters with contracts (C12 / C13 slices)",
     assumptions=_ENC_ASSUMPTIONS,
 )
+
+prop(
+    "C04",
+    level_text="Theorems for every capacity, head, tail, memory content, operand and chunk size (no bound): a model of RingBuffer whose raw accesses fault on any out-of-bounds or uninitialised access keeps the documented invariants 1-4 and refines a byte queue under every operation and every operation sequence; copy_bytes_overshooting stays inside the regions handed to it on all three paths, and all five call sites hand it regions of the right geometry (readable source = occupied cells, whole destination = free cells); DecodeBuffer establishes every precondition for every offset > 0, repeat equals the byte-by-byte overlapping copy (dictionary variant included), drain_to delivers/drops/hashes exactly the accepted prefix under every sink script, and the allocation stays below 2*(len+requested)+2. The hand-written model is tied to the code by replaying corpus, random and exhaustive small-capacity op sequences on the real RingBuffer/DecodeBuffer and comparing (cap, head, tail), len, free, contents and the raw-memory access trace (alloc/dealloc/read/write events and every copy_bytes_overshooting call) after every op; a shadow memory driven by the real trace checks bounds and initialisation of every raw access independently of the model, a VecDeque checks the queue semantics, XXH64 checks the hash of delivered bytes.",
+    engines=[{"name": "ring"}],
+    modelled="RingBuffer and DecodeBuffer are hand-written mirrors of ringbuffer.rs / decode_buffer.rs (every method incl. the three geometric cases, the five call sites and the three paths of copy_bytes_overshooting, the dead branchless variant, DrainGuard, write_all_bytes); the chunk size (size_of::<u128>() = 16) and the comparison operators of the guards that select a copy path / geometric case / reallocation are extracted from the source text on every run (Zstd/Gen/Ring.lean)",
+    assumptions=[
+        "usize additions do not overflow (every sum is bounded by twice an allocation size <= isize::MAX); total_output_counter (u64) does not overflow",
+        "the global allocator returns a valid block of the requested size or aborts",
+        "Read/Write implementations obey the std::io contract (a sink never reports more than it was given); on a short reader the default read_exact has stored the bytes it got",
+        "target is 64-bit with SSE2 or NEON (copy chunk = 16 bytes); the theorems hold for every chunk size > 0",
+        "the harness runs with debug assertions on (as the test-suite does); the model's debug_assert!s are faults, and the theorems show they never fire inside the contracts",
+    ],
+)
